@@ -55,8 +55,13 @@ claim("C11", "use-classification of every I/O Result (def-use over MIR); swallow
       N + "No I/O Result is dropped or merely tested unless reviewed with a structural side-condition; a match that swallows ZipError::Io is allowed only around callees reading an in-memory cursor; no unwrap/expect on "
       "an I/O Result, no panic on an Err edge; unchecked subtractions on stream positions only between positions of the same call; mem::replace(inner, Closed) is restored on every success path.",
       "Residue: the outcome statement 'error or identical to the failure-free run' over fault sequences as a whole (DESIGN.md O1).", "DESIGN.md §3 C11")
-claim("C12", "MIR panic-site inventory over the writer API; typestate invariants checked for establishment and preservation over all methods; path-enumerated misuse tables",
-      N + "No undischarged panic site reachable from ZipWriter/FileOptions; typestate assertions discharged by invariants I1-I4 (extra-data mode implies a plain sink and is left before the fallible switch; a closed entry "
+claim("C12", "typestate analysis by abstract interpretation of the MIR of every ZipWriter method over a finite abstraction of the writer's private state, closed under ALL call sequences (reachable-state "
+             "exploration with witness traces); MIR panic-site inventory over the writer API; structural typestate invariants; path-enumerated misuse tables",
+      N + "E6 (C12-TSX): from the states ZipWriter::new/new_append return, the abstract states (4 mode flags x sink variant incl. encryption layer x entry list empty/non-empty x accounting fresh/dirty) reachable by "
+      "every sequence of the 17 API calls (public methods, impl Write, Drop; encryption option only with start_file, as the property's quantifier says) are computed from the MIR; on all of them: no call reaches a "
+      "state-decided panic (get_plain/unwrap/unreachable!/files.last().unwrap()); write() without an open file, end_extra_data outside extra-data mode, and every entry-creating call on a closed writer never succeed; a "
+      "successful add_directory/add_symlink leaves no file open; a successful start_file* leaves a file open, not raw, with fresh accounting on a live sink; finish() leaves a closed writer with no open entry; "
+      "extra-data mode implies a plain stored sink and central-only mode never outlives it. Plus: no undischarged panic site reachable from ZipWriter/FileOptions; typestate assertions discharged by invariants I1-I4 (extra-data mode implies a plain sink and is left before the fallible switch; a closed entry "
       "leaves a plain sink; flags imply a current entry and entries are append-only; permissions defaulted before use); misuse rows of write/end_extra_data/switch_to/validate_extra_data; every failing path of the "
       "compressor switch leaves the writer closed; per-entry accounting reset.",
       "Residue: 'exactly the entries/bytes' at content level; sequences using the experimental encryption option beyond start_file+write (outside the quantifier, O7).", "DESIGN.md §3 C12")
